@@ -1,0 +1,8 @@
+//go:build !verif
+
+package controller
+
+// verification trace hook (build tag "verif"); no-op in regular builds
+func verifTrace(fanId string, event string, args ...int) {}
+
+func verifErr(err error) int { return 0 }
